@@ -23,6 +23,30 @@ CLAIMED = {
     ),
 }
 
+CLAIMED['C17'] = dict(
+    category='exploration',
+    text='Purity/determinism is runtime behaviour: every call documented as returning a new object is run on shared arguments with deep '
+         'structural snapshots before/after, repeated, interleaved in random 12-call sequences, on deep-copied and pickled arguments, and '
+         'recomputed under PYTHONHASHSEED 0..3 and 12345 in separate processes and in a spawn worker; CLI bytes are compared across hash seeds. '
+         'The part a Gallina model can carry — independence of every Python set-iteration order (nodemap key order in configure, deletion order '
+         'in Graph.__isub__, sorted(unreachable) in Model.errors, variables()) — is stated and proved in coq/Properties/C17.v when present.',
+    design_ref='DESIGN.md §5 C17',
+    note=TB + ' Gallina functions are pure by construction, so argument preservation and process/hash-seed independence are explored, not proved; '
+         'thread interleavings and OS effects are outside.',
+    technique='snapshot/differential exploration of all public calls across hash seeds and processes + Coq theorems on set-iteration-order independence',
+)
+CLAIMED['C20'] = dict(
+    category='exploration',
+    text='The tool (python -m penman, real subprocesses for 1 case in 8, penman.__main__.main() in workers for the rest) is compared byte-for-byte '
+         'and by exit status with an independent reference pipeline written from docs/command.rst over random option subsets x models x '
+         'stdin/files; second-pass byte idempotence for stable option sets; content preservation without normalisation options; '
+         'formatting options never change content.',
+    design_ref='DESIGN.md §5 C20',
+    note=TB + ' argparse, files, encodings and stdout are outside any model; idempotence is checked under C10\'s proviso (no constant spelled like a new variable) '
+         'and for well-formed input (distinct triples).',
+    technique='differential exploration: CLI vs documented library pipeline, second-pass idempotence (Coq model of the CLI plumbing to follow)',
+)
+
 UNDER_CONSTRUCTION = {}
 
 
